@@ -89,9 +89,17 @@ def history(depth):
         exp_len = S.Sum([S.B2BV(lv, 64) for lv, it, ov in spec], 64)
         rec.update({'exp_pop_some': exp_pop_some, 'exp_pop': exp_pop, 'exp_find_some': exp_find_some, 'exp_find': exp_find,
                     'exp_len': exp_len, 'spec_before': list(spec), 'repushed': repushed})
+        # the reference state follows the order the implementation actually handed out (which one it should have been
+        # is a separate obligation), so that a recorded deviation of pop does not cascade into later calls
+        pp = rec['pop'].payloads.get(1, UNDEF)
+        popped_some = S.Eq(rec['pop'].tag, S.bv(1, 64))
         new = []
         for (lv, it, ov), f, h_ in zip(spec, first, hit):
-            new.append((S.And(lv, S.Not(S.And(is_[1], f)), S.Not(S.And(is_[3], h_))), it, ov))
+            if pp is not UNDEF:
+                took = S.And(is_[1], popped_some, veq(OrderView(L, pp[0]).id, EnumV(S.bv(0, 64), {0: (it,)})))
+            else:
+                took = S.FALSE
+            new.append((S.And(lv, S.Not(took), S.Not(S.And(is_[3], h_))), it, ov))
         new.append((is_[0], idt, order))
         spec = new
         steps.append(rec)
